@@ -89,4 +89,40 @@ theorem cvtIntStringBits_eq (X : BitVec 64) : cvtIntStringBits X = encodeRune X.
     rcases toInt64_cases X with ⟨a1, a2⟩ | ⟨a1, a2⟩ <;>
     rcases toInt32_cases (X.setWidth 32) with ⟨b1, b2⟩ | ⟨b1, b2⟩ <;>
     rw [hrn] at b1 b2 <;> omega
+/-! bytes of an encoding are bytes -/
+theorem encodeNat_lt (c : Nat) (hc : validNat c) : ∀ b ∈ encodeNat c, b < 256 := by
+  unfold validNat at hc
+  unfold encodeNat
+  intro b hb
+  split at hb
+  · simp at hb; omega
+  · split at hb
+    · simp at hb; omega
+    · split at hb
+      · simp at hb; omega
+      · simp at hb; omega
+
+theorem encode_lt (rs : List Int) : ∀ b ∈ encode rs, b < 256 := by
+  induction rs with
+  | nil => intro b hb; simp [encode] at hb
+  | cons c rs ih =>
+    intro b hb
+    simp only [encode, List.mem_append] at hb
+    rcases hb with h | h
+    · exact encodeNat_lt _ (sanitize_valid c) b h
+    · exact ih b h
+
+theorem strBytes_ofBytes (l : List Nat) (h : ∀ b ∈ l, b < 256) : strBytes (ofBytes l) = l := by
+  unfold strBytes ofBytes
+  induction l with
+  | nil => rfl
+  | cons b l ih =>
+    simp only [List.map_cons, List.map_map] at ih ⊢
+    have hb : b < 256 := h b (by simp)
+    have hl : ∀ b ∈ l, b < 256 := fun x hx => h x (by simp [hx])
+    rw [ih hl]
+    congr 1
+    simp [Nat.mod_eq_of_lt hb]
+
+
 end Convert
